@@ -204,18 +204,113 @@ def build_part(spec):
 
     extra = [o for o in spec["objs"] if o["k"] in ("dynwords", "cdir") or (o["k"] == "fermata" and o.get("bar"))]
     base = dict(spec, objs=[o for o in spec["objs"] if not any(o is x for x in extra)])
-    part = ir.build_part(base)
+    if spec.get("qh") is not None:
+        part = _build_part_phased(base)
+    else:
+        part = ir.build_part(base)
     for o in extra:
+        # "raw" = the words as they are printed in the score (Direction.raw_text, what the exporter writes into
+        # <words>); it may differ from the canonical `text` in letter case or by being an abbreviation
         if o["k"] == "dynwords":
-            d = getattr(S, _DYNWORDS[o["text"]])(o["text"], staff=o.get("staff"))
+            d = getattr(S, _DYNWORDS[o["text"]])(o["text"], o.get("raw"), staff=o.get("staff"))
             part.add(d, o["s"], o.get("e"))
         elif o["k"] == "cdir":
             # constant direction of one of the three families that score.set_end_times closes; these are
             # added in the order of the spec so that a case fixes the order inside a time point
-            d = getattr(S, _CDIR[o["fam"]])(o["text"], staff=o.get("staff"))
+            d = getattr(S, _CDIR[o["fam"]])(o["text"], o.get("raw"), staff=o.get("staff"))
             part.add(d, o["s"], o.get("e"))
         else:
             part.add(S.Fermata(o["ref"]), o["s"])
+    return part
+
+
+# ---------------------------------------------------------------------------------------------
+# quarter durations (divisions) declared in any order and at any moment of the construction
+
+
+def q_apply(table, t, q):
+    """Reference model of Part.set_quarter_duration(t, q) on the table {time: quarter duration} (docstring of the
+    method: the value takes effect from t until the time of the next quarter duration; a value that was set at t
+    before is replaced).  Returns (new table, effect) with effect in
+      "add" / "replace"  the table changed,
+      "same"             t already carries q,
+      "redundant"        there is no entry at t and the value in force before t is q already: the method adds
+                         nothing (its comment: "add quarter duration at time t, unless it is redundant")."""
+    if t in table:
+        if table[t] == q:
+            return table, "same"
+        return {**table, t: q}, "replace"
+    before = [x for x in table if x < t]
+    if before and table[max(before)] == q:
+        return table, "redundant"
+    return {**table, t: q}, "add"
+
+
+def q_final(init, calls):
+    """table [[t, q], ...] after Part(quarter_duration=init) and the calls [(t, q), ...] in this order, or None if a
+    call has no effect ("same" / "redundant": such histories are not generated, see q_apply)"""
+    table = {0: init}
+    for t, q in calls:
+        table, eff = q_apply(table, t, q)
+        if eff in ("same", "redundant"):
+            return None
+    return [[t, table[t]] for t in sorted(table)]
+
+
+def cut_index(objs, cut):
+    """number of objects of the list that have been added to the part when a call with this cut is made:
+    0 = none, "S" = the leading structure objects (page, system, measures, signatures: everything before the first
+    note or rest), "S+k" = these and the first k notes/rests, "E" = all objects"""
+    if cut == 0 or cut == "0":
+        return 0
+    if cut == "E":
+        return len(objs)
+    first = next((i for i, o in enumerate(objs) if o["k"] in GENERIC), len(objs))
+    if cut == "S":
+        return first
+    return min(len(objs), first + int(cut[2:]))
+
+
+def _build_part_phased(spec):
+    """Build the part of a spec with a declaration history spec["qh"] = {"init": q, "calls": [[cut, t, q], ...]}:
+    Part(quarter_duration=init); the objects are added in the order of the list; every call
+    set_quarter_duration(t, q) is made at its cut (cut_index), calls of one cut in list order.  The final table is
+    spec["divs"] (the generators guarantee q_final(init, calls) == divs).  Kinds: what the divisions sub-spaces
+    use (page, system, measure, ts, note, rest)."""
+    import partitura.score as S
+
+    qh = spec["qh"]
+    objs = spec["objs"]
+    part = S.Part(spec.get("id", "P1"), part_name=spec.get("name"), part_abbreviation=spec.get("abbr"),
+                  quarter_duration=qh["init"])
+    calls = [(cut_index(objs, cut), t, q) for cut, t, q in qh["calls"]]
+    if [c[0] for c in calls] != sorted(c[0] for c in calls):
+        raise ValueError("calls of a declaration history must be listed in the order in which they are made")
+    ci = 0
+    for i in range(len(objs) + 1):
+        while ci < len(calls) and calls[ci][0] == i:
+            part.set_quarter_duration(calls[ci][1], calls[ci][2])
+            ci += 1
+        if i == len(objs):
+            break
+        o = objs[i]
+        k = o["k"]
+        if k in ("note", "rest"):
+            kw = dict(id=o.get("id"), voice=o.get("voice"), staff=o.get("staff"))
+            if o.get("sym") is not None:
+                kw["symbolic_duration"] = dict(o["sym"])
+            obj = S.Note(o["step"], o["oct"], o.get("alter"), **kw) if k == "note" else S.Rest(**kw)
+        elif k == "measure":
+            obj = S.Measure(number=o.get("number"), name=o.get("name"))
+        elif k == "ts":
+            obj = S.TimeSignature(o["beats"], o["beat_type"])
+        elif k == "page":
+            obj = S.Page(o.get("number", 1))
+        elif k == "system":
+            obj = S.System(o.get("number", 1))
+        else:
+            raise ValueError("kind %r is not supported in a part with a declaration history" % (k,))
+        part.add(obj, o.get("s"), o.get("e"))
     return part
 
 
